@@ -84,7 +84,7 @@ func (it *Item) UnmarshalJSON(b []byte) error {
 
 // Setting is the configuration dimension.
 type Setting struct {
-	Limit      int    `json:"args_limit,omitempty"`  // SecArgumentsLimit (0 = default 1000)
+	Limit      int    `json:"args_limit,omitempty"` // SecArgumentsLimit (0 = default 1000)
 	NoAccess   bool   `json:"no_body_access,omitempty"`
 	BodyLimit  int    `json:"body_limit,omitempty"`  // SecRequestBodyLimit (0 = default)
 	BodyAction string `json:"body_action,omitempty"` // Reject | ProcessPartial
@@ -315,11 +315,9 @@ type verdict struct {
 
 // execute runs cs once per map order and returns the first violation per
 // signature (with the choices that produced it).
-func execute(w coraza.WAF, cs Case, bound int, allSites bool, visit func(v verdict, choices []int)) mc.Stats {
-	rq := request(cs)
-	exp := expectation(cs, rq)
+func execute(w coraza.WAF, cs Case, rq scen.Req, exp *expect, bound int, allSites bool, visit func(v verdict, choices []int)) mc.Stats {
 	body := func(cx *mc.Ctx) {
-		o := scen.Run(w, rq, scen.Options{})
+		o := scen.Run(w, rq, scen.Options{Vars: allSites})
 		v := judge(cs, exp, o)
 		var ch []int
 		if cx != nil {
@@ -376,23 +374,26 @@ func run(c *runner.Ctx) {
 			}
 			c.Count("cases", 1)
 			c.Count("cases_"+cs.Chan, 1)
+			rq := request(cs)
+			exp := expectation(cs, rq)
+			c.Count("skipped_unspecified", int64(len(exp.skip)-1))
 			nontrivial := nonTrivial(cs)
 			first := true
-			st := execute(w, cs, bd, all, func(v verdict, ch []int) {
+			st := execute(w, cs, rq, exp, bd, all, func(v verdict, ch []int) {
 				c.Outcome(v.outcome)
 				if v.signalled {
 					c.Count("executions_with_error_signal", 1)
 					c.Count("signal_"+cs.Chan+"_"+v.why, 1)
-					if c.Get("signal_"+cs.Chan+"_"+v.why) == 1 {
-						c.Note("first signalled case of worker %d (%s/%s): %s", c.Worker, cs.Chan, v.why, wire(request(cs)))
+					if c.Worker == 0 && c.Get("signal_"+cs.Chan+"_"+v.why) == 1 {
+						c.Note("first signalled case of worker %d (%s/%s): %s", c.Worker, cs.Chan, v.why, wire(rq))
 					}
 				}
 				if first && c.WantSample() && nontrivial && len(cs.Items) > 1 {
-					c.Sample(map[string]any{"case": cs, "wire": wire(request(cs)), "outcome": v.outcome})
+					c.Sample(map[string]any{"case": cs, "wire": wire(rq), "outcome": v.outcome})
 				}
 				first = false
 				if v.sig != "" {
-					c.Violation(v.sig, v.what, replayScenario{Case: cs, Choices: ch, AllSite: all, Wire: wire(request(cs))})
+					c.Violation(v.sig, v.what, replayScenario{Case: cs, Choices: ch, AllSite: all, Wire: wire(rq)})
 				}
 			})
 			c.Count("evaluations", int64(st.Execs))
@@ -409,6 +410,26 @@ func run(c *runner.Ctx) {
 		})
 	})
 	c.Extra("deviation_bound", bound)
+	c.Extra("alphabet_wire", quoteAll(symWire))
+	c.Extra("alphabet_json", quoteAll(symJSON))
+	c.Extra("alphabet_xml", quoteAll(symXML))
+	c.Extra("variables_read_back", varNames())
+}
+
+func quoteAll(l []string) []string {
+	out := make([]string, len(l))
+	for i, s := range l {
+		out[i] = q(s)
+	}
+	return out
+}
+
+func varNames() []string {
+	var out []string
+	for _, v := range varSpecs {
+		out = append(out, v.name)
+	}
+	return out
 }
 
 func nonTrivial(cs Case) bool {
@@ -453,7 +474,7 @@ func replay(raw json.RawMessage) (bool, string) {
 	defer func() { vrt.MapSiteFilter = saved }()
 	var o *probe.Outcome
 	mc.Replay(rs.Choices, func(cx *mc.Ctx) {
-		o = scen.Run(w, rq, scen.Options{})
+		o = scen.Run(w, rq, scen.Options{Vars: rs.AllSite})
 		v = judge(rs.Case, exp, o)
 	})
 	var sb strings.Builder
